@@ -1,9 +1,10 @@
 import WzVerif.Driver.Proto
+import WzVerif.Driver.C02
 namespace Wz.Driver.C10
 open Wz Wz.Proto
 
-/-- stub: no model commands yet -/
-def handle : Handler
-  | _, _ => none
+/-- C10 uses the multipart commands of Driver/C01 (`mp.decode` reports the buffer length after every
+`receive_data`; limits are arguments) and the URL-encoded commands of Driver/C02 (`url.form`). -/
+def handle : Handler := Wz.Driver.C02.handle
 
 end Wz.Driver.C10
